@@ -717,3 +717,52 @@ M('c05-listing-verdict-flipped', ['C05', 'C01'], ['R5.8', 'R1.10'], [(CF,
 M('c05-finished-file-not-listed', ['C05', 'C01'], ['R5.8', 'R1.10'], [(CF,
   "        self._norm_cased_files.add(os.path.normcase(filename))\n        self._add_to_subfiles(filename)\n",
   "        self._norm_cased_files.add(os.path.normcase(filename))\n")])
+# ---- rules added after round 7 / the operand survey -------------------------
+M('c02-rollback-exempts-new-dirs', 'C02', 'R2.8', [(FB,
+  "        for dir_ in self._old_cache.created_dirs():\n            dirs_to_remove.discard(",
+  "        for dir_ in self._new_cache.created_dirs():\n            dirs_to_remove.discard(")],
+  'rollback exempts the failed build\'s own directories')
+M('c14-release-conditional-record', ['C14', 'C02', 'C12'],
+  ['R14.3', 'R2.11', 'R12.10'], [(BD,
+  "                if self._created_dirs_map.pop(parent, None) is not None:\n"
+  "                    self._error_created_dirs.add(parent)\n"
+  "                    self._maybe_removed_dirs.add(parent)\n",
+  "                if self._created_dirs_map.pop(parent, None) is not None:\n"
+  "                    if parent not in self._removed_dirs:\n"
+  "                        self._error_created_dirs.add(parent)\n"
+  "                        self._maybe_removed_dirs.add(parent)\n")])
+M('c04-apply-own-record', ['C04', 'C01'], ['R4.6', 'R1.9'], [(FB,
+  "        self._apply_cached_suboperations(cached_operation)\n"
+  "        operation.suboperations = cached_operation.suboperations",
+  "        self._apply_cached_suboperations(operation)\n"
+  "        operation.suboperations = cached_operation.suboperations")])
+M('c12-cache-file-dirs-other-set', ['C12', 'C16'], ['R12.4', 'R16.7'], [(FB,
+  "            if norm_cased_dir not in norm_cased_created_dirs:\n                created_dirs.append(dir_)",
+  "            if norm_cased_dir not in norm_cased_error_created_dirs:\n                created_dirs.append(dir_)")])
+M('c14-scan-before-memo', ['C14', 'C04', 'C12'], ['R14.9', 'R4.10', 'R12.9'],
+  [(BD,
+  "            elif norm_cased_dir in self._removed_dirs:\n"
+  "                return True\n"
+  "            elif norm_cased_dir not in self._maybe_removed_dirs:\n"
+  "                return False\n"
+  "            else:\n",
+  "            elif norm_cased_dir not in self._maybe_removed_dirs:\n"
+  "                return norm_cased_dir in self._removed_dirs\n"
+  "            else:\n")])
+M('c01-subbuild-failure-unmarked', 'C01', 'R1.11', [(FB,
+  "            except Exception:\n                operation.raised = True\n                raise\n            finally:",
+  "            except Exception:\n                operation.setup_failed = True\n                raise\n            finally:")])
+M('c01-returns-other-field', 'C01', 'R1.11', [(FB,
+  "        self._rebuild_file(func)\n        return operation.return_value",
+  "        self._rebuild_file(func)\n        return operation.file_comparison_result")])
+M('c06-opversion-getter-sibling-field', ['C06', 'C01'], ['R6.7', 'R1.11'],
+  [(CA,
+  "        return self._operation_versions.get(operation_name)",
+  "        return self._func_versions.get(operation_name)")])
+M('c04-exists-keeps-removed-memo', 'C04', 'R4.11', [(BD,
+  "            self._removed_dirs.discard(parent)\n            self._maybe_removed_dirs.discard(parent)",
+  "            self._maybe_removed_dirs.discard(parent)\n            self._maybe_removed_dirs.discard(parent)")],
+  'the confirmed-removed memo keeps a directory that exists again')
+M('c05-case-check-everywhere', 'C05', 'R5.10', [(FB,
+  "            not FileBuilder._IS_WINDOWS or\n",
+  "")], 'Path.resolve() follows symlinks on every platform')
